@@ -69,7 +69,7 @@ pub struct Plan {
 
 fn env_noise(rng: &mut Rng) -> Vec<(String, String)> {
     let mut env = vec![];
-    let cands: [(&str, &[&str]); 24] = [
+    let cands: [(&str, &[&str]); 29] = [
         ("SOURCE_DATE_EPOCH", &["0", "1700000000", "4102444800"]),
         ("LANG", &["C", "en_US.UTF-8", "tr_TR.UTF-8", "ja_JP.eucJP"]),
         ("LC_ALL", &["C", "POSIX", "de_DE.UTF-8"]),
@@ -91,6 +91,11 @@ fn env_noise(rng: &mut Rng) -> Vec<(String, String)> {
         ("USER", &["root", "builder", "nobody"]),
         ("HOSTNAME", &["ci-1", "laptop"]),
         ("CI", &["true", "1"]),
+        ("CARGO_PKG_RUST_VERSION", &["", "1.56", "1.83", "1.90.0"]),
+        ("CARGO_PRIMARY_PACKAGE", &["1"]),
+        ("CARGO_CFG_TARGET_POINTER_WIDTH", &["32", "64"]),
+        ("RUSTC_WRAPPER", &["sccache", ""]),
+        ("DOCS_RS", &["1"]),
         ("VERIF_CWD", &["cwd", "cwd-b", "ws/a"]),
         ("VERIF_EXE_NAME", &["rustc", "rust-analyzer-proc-macro-srv", "clippy-driver"]),
         ("VERIF_ARGV", &["--crate-name a --edition 2021", "--crate-name zzz -C metadata=0123abcd --cfg test", "-C opt-level=3"]),
@@ -193,7 +198,12 @@ pub fn plan(seed: u64, corpus: &[Input], thorough: bool) -> Plan {
         } else {
             let name = if rng.chance(1, 3) { gen::shared_type_name(&mut rng) } else { format!("G{}", t) };
             let opts = GenOpts { error_pct: 25, into_heavy: rng.chance(3, 10) };
-            let (text, classes) = gen::generate_ex(&mut rng, &name, &opts, &[]);
+            let (text, classes) = if rng.chance(1, 8) {
+                // a parameter probe (undocumented aliases, parameters a change has just introduced)
+                (gen::param_probe(&mut rng, &name), vec![])
+            } else {
+                gen::generate_ex(&mut rng, &name, &opts, &[])
+            };
             inputs.push(text);
             names.push(name);
             fault_classes.push(classes);
